@@ -53,9 +53,26 @@ def run(ctx):
             ms.append((tpl, cls, s, enc, ind, tr))
         cases.append(textgen.pipe(lines, flags="p", salt=rng.choice(["s", "Q", "_x", "", "é", "T5"])))
         metas.append(ms)
+    # the secret's characters recur elsewhere on the line (inside other words / after the secret): only the secret's position may change
+    rec_lines, rec_meta = [], []
+    for tpl in ["snmp-server mib community-map {}:100 context {}-mgmt", "set community {} members {}x", "rf-switch snmp-community {} description {}net", "key-hash sha256 {} # was {}",
+                "snmp-server community {} RO view {}view", "username {}admin password {}"]:
+        s = textgen.make_secret(rng, "text").replace(":", "a").replace("#", "b")
+        rec_lines.append(tpl.replace("{}", s) + "\n")
+        rec_meta.append((tpl, s))
+    cases.append(textgen.pipe(rec_lines, flags="p", salt="s"))
+    metas.append(None)
     m, i = ctx.correspond(cases, project=lambda c, o: textgen.norm(o), label="secrets")
     nt = 0
     for c, out, ms in zip(cases, i, metas):
+        if ms is None:
+            if not out.startswith("RAISED"):
+                for l, o, (tpl, s) in zip(c[11:], textgen.outlines(out), rec_meta):
+                    ti, to = l.split(), o.split()
+                    changed = [(a, b) for a, b in zip(ti, to) if a != b]
+                    if len(ti) != len(to) or len(changed) > 1:
+                        ctx.fail("text before/after the secret changed (the secret's characters occur elsewhere on the line)", {"line": l, "secret": s}, o, label="impl")
+            continue
         if out.startswith("RAISED"):
             ctx.fail("processing raised", c[:11], out, label="raised")
             continue
@@ -78,6 +95,6 @@ def run(ctx):
             if why:
                 ctx.fail(why, {"line": l, "template": tpl, "class": cls, "secret": s}, o, label="impl")
     ctx.evaluations = sum(len(c) - 11 for c in cases)
-    ctx.distinct_nontrivial = len({(t, c, s, e) for ms in metas for (t, c, s, e, _, _) in ms})
+    ctx.distinct_nontrivial = len({(t, c, s, e) for ms in metas if ms for (t, c, s, e, _, _) in ms})
     ctx.search_stats = {"cases": len(cases), "lines": ctx.evaluations, "classes": {k: len(v) for k, v in variants.items()}}
     ctx.samples = [{"line": cases[0][11], "impl": textgen.outlines(i[0])[0]}, {"line": cases[2][12], "impl": textgen.outlines(i[2])[1]}]
